@@ -127,6 +127,8 @@ type Var struct {
 	LoopVar bool
 	// FuncHolder: the variable holds an Fh (or *Fh): a struct with a function-typed field
 	FuncHolder bool
+	// Big: a 256-element table (see varsOf)
+	Big bool
 }
 
 // FuncSig is the signature of a generated function or closure.
